@@ -60,3 +60,34 @@ spec("C02",
           "states = distinct abstract states (live key/sort-key multiset + capacity) reached",
      assumptions=["keys supplied by the caller never collide with automatically issued keys (documented precondition)",
                   "growth thresholds beyond 2^7 entries are not crossed by the sequence search (ramps reach 64)"])
+
+
+# ----------------------------------------------------------------------------- C01
+def c01_jobs(tier):
+    jobs = []
+    if tier == "quick":
+        for start, depth in (("0", 4), ("-5", 3), ("3", 3)):
+            jobs.append(dict(name="seq-start%s-d%d" % (start, depth), harness="c01_events",
+                             opts=dict(depth=depth, start=start), bound_min=0, bound_max=0, deadline=200))
+    else:
+        for start, depth in (("0", 5), ("-5", 4), ("3", 4)):
+            jobs.append(dict(name="seq-start%s-d%d" % (start, depth), harness="c01_events",
+                             opts=dict(depth=depth, start=start), bound_min=0, bound_max=0, deadline=3000))
+    return jobs
+
+
+spec("C01",
+     jobs=c01_jobs,
+     technique="explicit-state exhaustive enumeration of API call sequences (incl. calls made from inside running actions) on the real event queue against a reference model",
+     level_text="Every sequence up to the stated depth over 30 operations (16 schedule variants with ties, int64 extremes, "
+                "1e300 and 8 in-action scripts that schedule/cancel/reschedule/reprioritise/pattern-cancel/clear from inside the "
+                "dispatcher; bulk schedules crossing the 8/16/32 capacity thresholds; cancel, reschedule, reprioritise, pattern "
+                "cancel, clear, execute-next, run) is run on the real queue; every return value, every handle query, all 8 wildcard "
+                "patterns, the clock, the current-event query and the heap structure are compared with a list model after every call "
+                "and at every action entry; finally the queue is run to empty (exactly-once).",
+     level_note="Trusted: the list model in harness/c01_events.c and the explorer. Latitude: cmb_event_current() is not asserted "
+                "after cmb_event_queue_clear(). Not covered: sequences longer than the depth bound.",
+     budget=dict(quick=600, thorough=7200),
+     rule="all operation sequences of the stated depth; distinct_nontrivial = distinct outcome signatures (hash of handles "
+          "returned, cancel results and the order in which events ran); states = distinct abstract queue contents reached",
+     assumptions=["start times -5, 0 and 3 stand for 'any start time'"])
